@@ -61,6 +61,133 @@ CHECKS = {
   note=TB + "SHA-512 collision-freeness is assumed (the model de-duplicates on content equality).",
   tech="Coq proof (counter and tried-set invariants) + temp-dir/trace correspondence",
   ref="4/C12"),
+
+ "C03": dict(
+  text="C03_one_minimal and C03_second_run_noop are Coq theorems over the minimize model: for EVERY deterministic test f "
+       "(no monotonicity), every input with non-empty atoms, every power-of-two --max, repeat in {last, always}: the run "
+       "finishes, the final testcase is a deletion of the original that f accepts, and deleting any single remaining "
+       "reducible atom is rejected; a follow-up run with chunk size 1 accepts nothing. Termination comes from C09. "
+       "Tie: trace correspondence (exhaustive DFS over verdict sequences = all deterministic tests up to observational "
+       "equivalence on small inputs; non-monotone function families on larger ones) + regenerated Testcase/util definitions.",
+  note=TB + "Atoms non-empty and content(tc0) = file are C06's theorems; SHA-512 collision-freeness.",
+  tech="Coq proof (tried-set + last-sweep invariants) + trace correspondence with DFS over verdict sequences",
+  ref="4/C03"),
+ "C04": dict(
+  text="C04_generic (any strategy whose candidates are deletions of the current best), C04_minimize, C04_pairs (minimize-around, "
+       "minimize-balanced with the experimental move off): Coq theorems that every file handed to the test and the final file are "
+       "the original with reducible atoms deleted (before/after and non-reducible parts in place), for every verdict function, "
+       "option setting with max >= 1 and clock. Tie: concrete Coq models of the three strategies compared event by event with the "
+       "implementation (DFS over verdicts, random layouts), rmslice regenerated from the source.",
+  note=TB + "The experimental move is excluded by the property itself.",
+  tech="Coq proof (deleting-strategy invariant over rmslice spec) + trace correspondence",
+  ref="4/C04"),
+ "C05": dict(
+  text="C05_generic (EVERY strategy whose candidates and raw writes keep the frame: all test files and the final file are P ++ m ++ S), "
+       "C05_deleting (minimize/around/balanced keep any frame), C05_collapse (collapse-brace with ANY tiling splitter: raw write and re-split "
+       "candidate keep the frame), C05_loaded / C05_loaded_char (a loaded marker file is framed by the marker lines; char mode also "
+       "protects the byte before the DDEND line), and the end-to-end corollaries C05_minimize/pairs/collapse_loaded: Coq theorems for "
+       "every verdict function, input and splitter. replace-* and the experimental move are covered by C05_generic under the monitored "
+       "assumption that their candidates never change before/after (their real candidates are replayed through the model driver). Tie: "
+       "trace correspondence over marker files x 7 strategies (+move) x 5 splitters with a prefix/suffix oracle.",
+  note=TB + "Partial for replace-properties / replace-arguments / move: 'candidates keep before/after' is monitored on the implementation, not proved.",
+  tech="Coq proof (frame invariant of the driver loop + per-strategy frame preservation) + trace correspondence",
+  ref="4/C05"),
+ "C06": dict(
+  text="C06_line/char/symbol/jsstr/attrs + C06_load_generic: Coq theorems that for EVERY byte string the loaded testcase writes back to "
+       "exactly that string, every atom is non-empty, one flag per atom, and the only possible error is the marker LithiumError "
+       "(jsstr's RuntimeError and fuel exhaustion are proved unreachable). Tie: the models (byte-level splitlines, marker scan, the five "
+       "split_parts) are compared with the real classes on every string up to a length bound over adversarial alphabets (invalid UTF-8, "
+       "all terminators, marker words, quotes/escapes, tag syntax) and random long strings; pattern texts / constants are regenerated "
+       "from the source and pinned (GenEqSplit).",
+  note=TB + "Modelled, not verified: CPython's utf-8/surrogateescape decode + str.splitlines (as PyLines.v) and the re module (as hand-readable scanners).",
+  tech="Coq proof (cursor invariants, all byte strings) + exhaustive model/implementation comparison + pinned patterns",
+  ref="4/C06"),
+ "C08": dict(
+  text="C08_spec: the two scanning loops of Testcase.load equal the specification 'lines strictly between the first DDBEGIN line and the "
+       "first later DDEND line' for every byte string; C08_both_words_*, C08_error_is_early (the error is raised before split_parts for "
+       "any splitter), C08_no_markers, C08_contains (find != -1 is substring occurrence). Tie: every arrangement of up to 4/5 lines of 7 "
+       "kinds x 4 terminators x 5 splitters against the model and an independent reference; early rejection through Lithium.main().",
+  note=TB + "str.splitlines is modelled (PyLines.v, validated exhaustively under C06).",
+  tech="Coq proof (induction over the line list) + exhaustive arrangement comparison",
+  ref="4/C08"),
+ "C09": dict(
+  text="C09_minimize_like (minimize and minimize-collapse-brace via the post-round callback), C09_pairs (minimize-around, "
+       "minimize-balanced): Coq theorems that for EVERY verdict function (inconsistent answers included), clock and valid option setting "
+       "the run neither exhausts fuel nor fails internally (balanced's assert, index errors, the bounded skip loop are proved "
+       "unreachable) and performs at most (n+1)(n+ceil(log2 n)+2)+1 tests (potential-function proofs). The post_ok side condition "
+       "for collapse-brace is proved for line mode (C05 file). The rewriting strategies are NOT proved: replace-arguments-by-globals "
+       "violates the bound (known finding, concrete replay), replace-properties is explored only. Tie: trace correspondence incl. "
+       "worst-case search by DFS and adversarial long inputs.",
+  note=TB + "Partial: replace-properties-by-globals / replace-arguments-by-globals have no Coq model of their passes (bound explored with a "
+       "test cap); collapse-brace's 're-split does not grow' is proved for the line splitter only.",
+  tech="Coq proof (potential functions) for 4 chunk strategies + capped exploration for the 2 rewriters",
+  ref="4/C09"),
+ "C13": dict(
+  text="C13_around and C13_balanced: Coq theorems over the concrete models of the two pair strategies: with a deterministic test, chunk "
+       "size down to 1, repeat last/always, no limit, a finished run ends at a testcase where every 'delete both neighbours' (around) / "
+       "'delete a balanced atom' and 'delete an unbalanced atom with its partner' (balanced, all-reducible splitters) candidate is rejected; "
+       "partner is an independent 8-line definition. Tie: trace correspondence (DFS over verdicts on all small bracket arrangements).",
+  note=TB + "Reading of 'partner' fixed in DESIGN.md (running balance must not dip below zero). Termination is C09_pairs.",
+  tech="Coq proof (last-pass invariants) + trace correspondence",
+  ref="4/C13"),
+ "C14": dict(
+  text="C14_blocks (every candidate in every reachable state: one contiguous block of the current best, power-of-two size at most the "
+       "effective maximum, never larger than before, below --min only once at most --min atoms remain), C14_repeat / C14_single_sweep "
+       "(round-end decision), C14_deadline*, C14_is_power_of_two, C14_largest_power_of_two_smaller_than (all integers): Coq theorems. "
+       "Tie: util.py regenerated from source (GenEqUtil), option tables / process_args pinned (GenEqStrat), trace correspondence over "
+       "an option grid with scripted clocks, and the start-up validation through argparse.",
+  note=TB + "Deadline claims are about clock READINGS (time.time is modelled as an arbitrary stream); --min <= --max assumed for the --min rule.",
+  tech="Coq proof (reachable-state invariant of the minimize state machine) + correspondence over option/clock grid",
+  ref="4/C14"),
+ "C15": dict(
+  text="C15_line_* (atoms are exactly the lines: terminated except the last, LF only last, CR-LF never split), C15_char_*, "
+       "C15_symbol_cuts (boundaries are exactly the positions after a cut-after byte / before a cut-before byte, any disjoint sets) for "
+       "all byte strings; C15_symbol_overlap_refuted documents the overlapping-set behaviour (known finding). Tie: exhaustive strings x "
+       "delimiter-set grid incl. regex-special bytes, programmatic and through --cut-before/--cut-after.",
+  note=TB + "The cutter regex is modelled by a direct scanner; its template and defaults are pinned to the source (GenEqSplit).",
+  tech="Coq proof (all byte strings, all disjoint delimiter sets) + exhaustive comparison incl. the command line",
+  ref="4/C15"),
+ "C16": dict(
+  text="C16_js: the reducible spans produced by the model of TestcaseJsStr.split_parts (rewinds, header/footer and gap merges included) "
+       "equal an independent position-based reference tokenizer for every byte string; C16_tok_len_cases (escapes are cut whole); "
+       "C16_attrs: every reducible atom has attribute shape and lies inside a tag (structural walk), for every byte string; both "
+       "splitters total and loss-free. Tie: exhaustive comparison of model, implementation and Python twins of the references.",
+  note=TB + "CPython's re semantics for the five patterns is modelled by scanners pinned to the pattern texts.",
+  tech="Coq proof (equivalence with a reference tokenizer / structural grammar) + exhaustive comparison",
+  ref="4/C16"),
+ "C17": dict(
+  text="C17_isolation / C17_scan_isolation (nothing after the test name changes the configuration; the test gets its arguments verbatim), "
+       "C17_options_take_effect (the early parser sees exactly the items of the main parser), C17_resolution / C17_syspath_restored "
+       "(path, cwd, built-in, error; search path restored) are Coq theorems over a token-level model of argparse/importlib AS CONFIGURED "
+       "by Lithium; C17_old_early_parser_refuted and C17_sys_modules_shadow document the repaired / remaining defects. Tie: ~700 (6000) "
+       "command lines through the real process_args compared field by field with the model.",
+  note=TB + "Partial by nature: argparse and importlib are modelled on a stated token domain (full option names, no abbreviations, no '--', "
+       "no clustered flags), not verified.",
+  tech="Coq proof over a model of the two-parser scheme + command-line correspondence",
+  ref="4/C17"),
+ "C18": dict(
+  text="C18_timeout/finished/posix/reported_code/crashes/hangs: Coq theorems about the decision function, which is REGENERATED from the "
+       "if/elif chain of timed_run and from crashes.py/hangs.py on every run (GenEqStatus). The runtime half (timeout detection, kill and "
+       "reap, byte-exact capture in both modes) cannot be exhibited by a model and is explored against ground truth: one child per exit "
+       "code 0..255, per terminating signal, sleeps around the limit, outputs up to 1 MiB on both streams.",
+  note=TB + "Partial: communicate(timeout)/kill/pipes are OS+CPython behaviour (explored, margins 0.15-0.3 s).",
+  tech="Coq proof of the regenerated decision chain + child-process exploration of the runtime half",
+  ref="4/C18"),
+ "C19": dict(
+  text="C19_outputs_spec/modes_agree, C19_diff_spec/modes_agree, C19_repeat, C19_replace_*: Coq theorems about the decision logic of "
+       "outputs, diff_test and repeat (regex matching as a parameter, filecmp and str.replace modelled). Tie: the real modules with "
+       "real children in both capture modes compared with the model and with the documented meaning (forced equal mtimes for diff_test).",
+  note=TB + "Regular-expression matching is a parameter of the model; process execution is C18's runtime half.",
+  tech="Coq proof of the decision logic + child-process correspondence in both capture modes",
+  ref="4/C19"),
+ "C20": dict(
+  text="C20_lowest_free, C20_concurrent (EVERY schedule of k runs: distinct fresh directories, nothing pre-existing touched), "
+       "C20_concurrent_progress, C20_fault_stops, C20_terminates: Coq theorems over an atomic-mkdir model whose caught exception class is "
+       "pinned to the source. Tie: the real create_temp_dir over a stubbed pathlib/os layer for every subset of tmp1..5 x fault, every "
+       "interleaving of 2-3 runs at exists()/mkdir() granularity, the real file system, and 2-16 racing processes.",
+  note=TB + "Atomicity of mkdir(2) and EEXIST for existing names of any kind are OS behaviour (assumed).",
+  tech="Coq proof over all schedules of an atomic-mkdir model + stubbed/real-FS/racing-process correspondence",
+  ref="4/C20"),
 }
 
 NOT_YET = {}
